@@ -239,7 +239,16 @@ func VerifC03History() {
 			qe = c03Query(k)
 		}
 	}
-	resp, err := srv.Get(ctx, &gnmi.GetRequest{Prefix: &gnmi.Path{Target: "t1"}, Path: []*gnmi.Path{{Elem: qe}}, Encoding: gnmi.Encoding_PROTO})
+	// the queried path may be split between the request prefix and the path: nothing / the first element / every element
+	// in the prefix (a path with no elements of its own)
+	gp, gq := &gnmi.Path{Target: "t1"}, &gnmi.Path{Elem: qe}
+	switch verifrt.Fork("get.split", 3) {
+	case 1:
+		gp.Elem, gq.Elem = qe[:1], qe[1:]
+	case 2:
+		gp.Elem, gq.Elem = qe, nil
+	}
+	resp, err := srv.Get(ctx, &gnmi.GetRequest{Prefix: gp, Path: []*gnmi.Path{gq}, Encoding: gnmi.Encoding_PROTO})
 	verifrt.Assert(err == nil && resp != nil && len(resp.Notification) == 1, "get-answers")
 	if err != nil || resp == nil || len(resp.Notification) != 1 {
 		return
